@@ -293,6 +293,16 @@ def pyNew : Nat → Schemas → String → String → List (String × PyVal) →
       | .struct fs _ _ _ =>
         if !kwargsKnown fs kwargs then .raise "TypeError: unexpected keyword argument" else
         (mapPRes (pyInitField (pyNew fuel ss) fuel ss kwargs) fs).map .inst
+      | .scalar kind v _ _ =>
+        -- a named scalar is a type alias (`Port: typing.TypeAlias = int`): calling it yields the
+        -- zero value of the builtin
+        if !v.isNilV || !kwargs.isEmpty then .unsup "call of a constant / alias with arguments"
+        else if kind = "string" then .ok (.str "")
+        else if kind = "bool" then .ok (.bool false)
+        else if (intRange kind).isSome || kind = "float32" || kind = "float64" then .ok (.num 0)
+        else .unsup "call of an alias of this scalar kind"
+      | .array .. => if kwargs.isEmpty then .ok (.list []) else .unsup "alias with arguments"
+      | .map .. => if kwargs.isEmpty then .ok (.dict []) else .unsup "alias with arguments"
       | _ => .unsup "not a class generated from a struct"
 
 /-- `json.dumps(Name(), cls=JSONEncoder)` -/
